@@ -99,6 +99,13 @@ impl<'value, T: 'value> Stream<T> {
 
 impl<'value, T: 'value + Clone + fmt::Display> Stream<T> {
     pub(crate) fn add_value(&mut self, value: T, generation: Generation) -> ExecutionResult<()> {
+        // a stream holds less than STREAM_MAX_SIZE values and generations are numbered densely, so a bigger
+        // generation index can only come from malformed data; it must not be used to size the matrix
+        if let Generation::Previous(generation_idx) | Generation::Current(generation_idx) = generation {
+            if generation_idx >= STREAM_MAX_SIZE {
+                return Err(crate::UncatchableError::StreamSizeLimitExceeded.into());
+            }
+        }
         match generation {
             Generation::Previous(previous_gen) => self.previous_values.add_value_to_generation(value, previous_gen),
             Generation::Current(current_gen) => self.current_values.add_value_to_generation(value, current_gen),
